@@ -271,6 +271,11 @@ impl Layer {
     pub fn swap_char(&mut self, pos1: impl Into<Position>, pos2: impl Into<Position>) {
         let pos1 = pos1.into();
         let pos2 = pos2.into();
+        let inside = |pos: Position| pos.x >= 0 && pos.y >= 0 && pos.x < self.get_width() && pos.y < self.get_height();
+        if !inside(pos1) || !inside(pos2) {
+            // nothing can be written outside the layer: swapping with it would only erase the other cell
+            return;
+        }
         let tmp = self.get_char(pos1);
         self.set_char(pos1, self.get_char(pos2));
         self.set_char(pos2, tmp);
